@@ -188,8 +188,10 @@ where
     // [xxxxx] -> [xxxxx000], so for the cast to be infallible, the output type
     // needs to provide at least 8 digits precision
     // widen before adding: precision (up to 76) plus scale delta can exceed i8::MAX
-    let is_infallible_cast =
-        (input_precision as i16) + (delta_scale as i16) <= (output_precision as i16);
+    // The infallible closure is applied to every slot, including whatever bytes sit under
+    // nulls, so it must also never fail to narrow the native type.
+    let is_infallible_cast = std::mem::size_of::<I::Native>() <= std::mem::size_of::<O::Native>()
+        && (input_precision as i16) + (delta_scale as i16) <= (output_precision as i16);
     let f_infallible = is_infallible_cast
         .then_some(move |x| O::Native::from_decimal(x).unwrap().mul_wrapping(mul));
     Some((f_fallible, f_infallible))
@@ -260,8 +262,9 @@ where
     // the output type needs to have at least 3 digits of precision.
     // e.g. Decimal(5, 3) 99.999 to Decimal(3, 0) will result in 100:
     // [99999] -> [99] + 1 = [100], a cast to Decimal(2, 0) would not be possible
-    let is_infallible_cast =
-        (input_precision as i16) - (delta_scale as i16) < (output_precision as i16);
+    // (applied to every slot, nulls included: only when the native type is not narrowed)
+    let is_infallible_cast = std::mem::size_of::<I::Native>() <= std::mem::size_of::<O::Native>()
+        && (input_precision as i16) - (delta_scale as i16) < (output_precision as i16);
     let f_infallible = is_infallible_cast.then_some(move |x| f_fallible(x).unwrap());
     Some((f_fallible, f_infallible))
 }
